@@ -1,16 +1,23 @@
+import AnyDB.Generated.Consts
+import AnyDB.Generated.Orders
+import AnyDB.Model.Mem
+import AnyDB.Model.Rawdb
+import AnyDB.Model.Vec
 import Driver.RawdbProto
+import Driver.VecProto
 open AnyDB
 
-partial def loopRawdb (h : IO.FS.Stream) (out : IO.FS.Stream) (s : Db) : IO Unit := do
+partial def loopWith {σ : Type} (h : IO.FS.Stream) (out : IO.FS.Stream) (handle : σ → String → σ × String) (s : σ) : IO Unit := do
   let line ← h.getLine
   if line.isEmpty then return ()
-  let (s', ans) := RawdbProto.handle s line
+  let (s', ans) := handle s line
   out.putStrLn ans
-  loopRawdb h out s'
+  loopWith h out handle s'
 
 def main (args : List String) : IO UInt32 := do
   let stdin ← IO.getStdin
   let stdout ← IO.getStdout
   match args with
-  | ["rawdb"] => loopRawdb stdin stdout Db.init; return 0
+  | ["rawdb"] => loopWith stdin stdout RawdbProto.handle Db.init; return 0
+  | ["vec"] => loopWith stdin stdout VecProto.handle (VecM.V.init .raw 8 0); return 0
   | _ => IO.eprintln "usage: anydb_driver <engine>"; return 2
